@@ -4,8 +4,9 @@
    it and (d) passes without it.   usage: seed_verify.py Cxx N   -> writes out-Cxx/verifyN.json"""
 import json, os, subprocess, sys, shutil
 pid, n = sys.argv[1], sys.argv[2]
+prefix = os.environ.get("SEED_OUT", "out")
 wt = "/tmp/seedwork/wt-%s" % pid
-out = "/tmp/seedwork/out-%s" % pid
+out = "/tmp/seedwork/%s-%s" % (prefix, pid)
 env = dict(os.environ, CARGO_NET_OFFLINE="true")
 def run(cmd, **kw):
     p = subprocess.run(cmd, cwd=wt, env=env, capture_output=True, text=True, **kw)
